@@ -255,3 +255,8 @@ package client
 //@        (opts.Params != "" ==> (len(arg1) >= 4 && arg1[1] == "-p" && arg1[2] == "\"" + escape_arg(opts.Params) + "\"")) &&
 //@        (opts.Params == "" ==> len(arg1) == ite(opts.Quiet, 3, 2))
 //@   expect calls os/exec.Command >= 1
+
+//@ fn New(dataStore, executable, workDir, lg) (c)
+//@   props C10 C20
+//@   modifies heap(alloc)
+//@   nonnilresult
